@@ -68,6 +68,13 @@ pub fn run(a: &Args) {
         add("libé.so.3rc5", rtext(&mut rng, 32), Some(rid(&mut rng)), None, 0, "r-x", false, &mut files);
         add("gone.so.7", rtext(&mut rng, 40), Some(rid(&mut rng)), Some("libgone.so.7"), 0, "r-x", true, &mut files);
         add("archive.apk", rtext(&mut rng, 48), Some(rid(&mut rng)), Some("libemb.so"), 4096, "r-x", false, &mut files);
+        // the build-id note in a SECOND PT_NOTE segment (the first holds another note), no section headers: the id can only
+        // come from the program headers, also after the file has been deleted
+        for (nm, del) in [("libtwonotes.so", false), ("libtwogone.so", true)] {
+            let id = rid(&mut rng); let prop: Vec<u8> = (0..16).map(|_| rng.next() as u8).collect();
+            let img = crate::c14::synth_elf_gen(true, true, false, true, &rtext(&mut rng, 200), &[(b"GNU", &prop[..], 5)], Some(&id), 8);
+            files.push(FileSpec { name: nm.to_string(), bytes: img, offset: 0, perms: "r-x", delete: del, id: Some(id), soname: None });
+        }
         if rng.chance(1, 2) { add("lib.so.1.2.3é4", rtext(&mut rng, 16), Some(rid(&mut rng)), None, 0, "r-x", false, &mut files); }
         // a non-ELF file and a file under /dev/shm (must never be opened by the writer)
         files.push(FileSpec { name: "notelf.bin".into(), bytes: (0..5000).map(|_| rng.next() as u8).collect(), offset: 0, perms: "r-x", delete: false, id: None, soname: None });
